@@ -1,4 +1,5 @@
-"""C15 Lighthouse angle, vector and pose conversions are mutually consistent — RESTRICTED to the rigid-motion laws of Pose.
+"""C15 Lighthouse angle, vector and pose conversions are mutually consistent — the rigid-motion laws of Pose, and the
+LighthouseBsVector conversions (V1 / V2 angles, Cartesian, projection) in the field of view with abstract trigonometry.
 
 The real cflib.localization.lighthouse_types.Pose code runs on numpy *object* arrays whose entries are CrossHair real-model
 symbolic numbers, so np.dot / np.transpose / + / - build exact polynomial terms over the 9 matrix entries, translations and
@@ -13,15 +14,23 @@ from cflib.localization.lighthouse_types import Pose
 FUNCTIONS = ['cflib.localization.lighthouse_types:Pose.rotate_translate', 'cflib.localization.lighthouse_types:Pose.inv_rotate_translate',
              'cflib.localization.lighthouse_types:Pose.rotate_translate_pose',
              'cflib.localization.lighthouse_types:Pose.inv_rotate_translate_pose', 'cflib.localization.lighthouse_types:Pose.scale',
-             'cflib.localization.lighthouse_types:Pose.__init__']
-STUBS = ['numpy object arrays of symbolic reals (np.dot, np.transpose, elementwise + - * run as compiled numpy loops over Python objects)']
+             'cflib.localization.lighthouse_types:Pose.__init__',
+             'cflib.localization.lighthouse_bs_vector:LighthouseBsVector.from_lh2', 'cflib.localization.lighthouse_bs_vector:LighthouseBsVector.from_cart',
+             'cflib.localization.lighthouse_bs_vector:LighthouseBsVector.from_projection', 'cflib.localization.lighthouse_bs_vector:LighthouseBsVector._q',
+             'cflib.localization.lighthouse_bs_vector:LighthouseBsVector']
+STUBS = ['math.tan/atan/atan2/asin/sin/cos on symbolic reals -> uninterpreted functions + ground instances of standard identities (vf/plugins/trig.py); '
+         'math.sqrt -> real-model root; np.float32(seq) inside lighthouse_bs_vector -> object array of the same numbers (conv_* harnesses only)',
+         'numpy object arrays of symbolic reals (np.dot, np.transpose, elementwise + - * run as compiled numpy loops over Python objects)']
 ASSUMPTIONS = ['decided over the real numbers (float rounding of the matrix products is outside)',
+               'conv_*: field of view = V1 (resp. V2) angles within +-0.98 rad (56 degrees, |tan| <= 1.5); the trigonometric identities instantiated '
+               'by vf/plugins/trig.py are true statements about the real functions (trusted mathematics, listed in that file)',
                'point_inverse[inv] takes both R^T R = I and R R^T = I as the definition of an orthogonal matrix',
                'rotation matrices: any 3x3 real matrix with R^T R = I (solver assumption)']
-OUTSIDE = ['V1<->V2<->Cartesian<->projection conversions (transcendental: atan/tan/asin; cvc5 QF_NRAT cannot prove even atan(tan h) = h)',
-           'unit length of the float32 Cartesian vector, rotation-vector and quaternion views (compiled scipy)',
+OUTSIDE = ['float32 / float64 rounding of the conversions ("to float32 accuracy" is decided as exact equality over the reals)',
+           'directions outside the field of view (behind the base station, beyond +-56 degrees)',
+           'rotation-vector and quaternion views (compiled scipy)',
            'the geometry solver\'s vectorised projection (numpy linalg / nan_to_num)']
-EXPLANATION = 'C15 (restricted): inverse, composition/associativity, sequential-application and orthonormality-preservation laws of Pose ' \
+EXPLANATION = 'C15: LighthouseBsVector conversion laws with abstract trigonometry (uninterpreted functions + identity instances), and inverse, composition/associativity, sequential-application and orthonormality-preservation laws of Pose ' \
               'as NRA obligations; inputs unmodified.'
 
 PROVE = dict(prove_order='z3', prove_timeout=300, prove_z3_timeout=30)
